@@ -602,6 +602,12 @@ pub fn mutate_sync(input: &[u8], m: Mutation) -> (Vec<u8>, String) {
     }
     let fields = sync_fields(input);
     let mut b = input.to_vec();
+    if m.class == MutClass::Coherent && rng.bool() {
+        // a well-formed first message of a peer that has nothing and speaks the original protocol version: no heads, nothing
+        // needed, one `have` with an empty filter, no changes, no trailing flags. Any old client sends exactly this; the
+        // receiver answers from its whole history without the "send the document instead" shortcut of the newer version.
+        return (vec![0x42, 0, 0, 1, 0, 0, 0], "legacy empty-peer message".into());
+    }
     match m.class {
         MutClass::FieldExtreme | MutClass::SpecMutate | MutClass::ColumnSplice | MutClass::Coherent => {
             let cands: Vec<&Field> = fields.iter().filter(|f| matches!(f.kind, FieldKind::Count | FieldKind::Len | FieldKind::Num)).collect();
